@@ -1,4 +1,209 @@
-(* C09 — property theorems (placeholder while the correspondence is being tuned) *)
-From JV Require Import Lib.Base Model.C09ParserState.
-Example C09_placeholder : is_int [49%N] = true.
-Proof. reflexivity. Qed.
+(* C09 — a parser's answers do not depend on what it was asked before.  Property theorems only.
+
+   Model.C09ParserState: the parsers of one process as a state machine over the state the real objects carry
+   between calls (pending --print_config request, stored argv, the lazily added --print_shtab action per root
+   parser; the context variables parse_kwargs / subclass_arg_parser / dump_kwargs and the class-level dict of the
+   class help action per process).  step fx Ds s o = (state after, answer) of call o (on parser op_p o) in state s,
+   for declarations Ds; init n = n freshly built parsers in a fresh process; run = fold of step over a history.
+   fx : fixes says which of the three proposed repairs the tree contains (pinned = none, the tree as given).
+
+   FULL STATEMENT (DESIGN 5.9)            history_independent fx :=
+       forall Ds n ops o, snd (step fx Ds (run fx Ds (init n) ops) o) = snd (step fx Ds (init n) o)
+   It is FALSE of the pinned tree in exactly three ways (C09_*_refuted, each replayed on the implementation by the
+   correspondence run and listed in known_findings/C09.txt) and TRUE of the repaired tree
+   (C09_repaired_history_independent). *)
+From JV Require Import Lib.Base Model.C09ParserState Proofs.C09Proofs.
+
+(* history_independent is defined in Proofs.C09Proofs exactly as displayed above *)
+
+(* ---------- what holds of every variant, the pinned tree included ---------- *)
+
+(* The answer of a call is the answer of the same call on a fresh parser in a fresh process whenever the call is
+   inside the guard — and this for ANY state s, reachable or not, of any number of parsers: the answer does not
+   read the context variables (parse_kwargs, subclass_arg_parser, dump_kwargs are written and never reset, but
+   never read before the same call has written them), nor the stored argv, nor the state of any other parser.
+   The guard (the same function the judge evaluates, v_class) excludes only:
+     1  a --print_config request is pending on the parser called,
+     2  the call names the key print_shtab and the parser called has acquired the --print_shtab action,
+     3  the call asks for a class help and the class-level `skip` entry has been written. *)
+Theorem C09_guarded_answer_is_fresh_answer :
+  forall fx Ds n s o, in_guard fx s o = true -> snd (step fx Ds s o) = snd (step fx Ds (init n) o).
+Proof. exact guarded_state_independent. Qed.
+Print Assumptions C09_guarded_answer_is_fresh_answer.
+
+(* the statement over histories: all histories of any length over any declarations, failing, help-printing and
+   config-printing calls included *)
+Theorem C09_history_independent_guarded :
+  forall fx Ds n ops o,
+    in_guard fx (run fx Ds (init n) ops) o = true ->
+    snd (step fx Ds (run fx Ds (init n) ops) o) = snd (step fx Ds (init n) o).
+Proof. exact guarded_history_independent. Qed.
+Print Assumptions C09_history_independent_guarded.
+
+(* a call on one parser never changes what another parser carries itself (request, argv, --print_shtab): classes
+   1 and 2 can only be caused by earlier calls on the SAME parser; only class 3 crosses parsers *)
+Theorem C09_other_parser_untouched :
+  forall fx Ds s o i, op_p o <> i -> get_ps (fst (step fx Ds s o)) i = get_ps s i.
+Proof. exact other_parser_untouched. Qed.
+Print Assumptions C09_other_parser_untouched.
+
+(* after any history, a finding class can only be met on a tree that lacks the corresponding repair:
+   with fx_pc no request is pending after any call (invariant over histories), with fx_sh the acquired action is
+   not read, with fx_hs the class-level dict is not read *)
+Theorem C09_class_needs_missing_repair :
+  forall fx Ds n ops o,
+    match guard_class fx (run fx Ds (init n) ops) o with
+    | 1%N => fx_pc fx = false
+    | 2%N => fx_sh fx = false
+    | 3%N => fx_hs fx = false
+    | _ => True
+    end.
+Proof. exact class_needs_missing_repair. Qed.
+Print Assumptions C09_class_needs_missing_repair.
+
+(* ---------- the repaired tree: the FULL statement, no guard ---------- *)
+Theorem C09_repaired_history_independent :
+  forall fx, fx_pc fx = true -> fx_sh fx = true -> fx_hs fx = true -> history_independent fx.
+Proof. exact repaired_is_history_independent. Qed.
+Print Assumptions C09_repaired_history_independent.
+
+(* state invariants of the single repairs *)
+Theorem C09_repair_pc_nothing_pending :
+  forall fx Ds ops s, fx_pc fx = true -> no_pending s -> no_pending (run fx Ds s ops).
+Proof. exact run_no_pending. Qed.
+Print Assumptions C09_repair_pc_nothing_pending.
+
+Theorem C09_repair_hs_class_dict_never_written :
+  forall fx Ds ops s, fx_hs fx = true -> st_help_skip (run fx Ds s ops) = st_help_skip s.
+Proof. exact run_help_skip_kept. Qed.
+Print Assumptions C09_repair_hs_class_dict_never_written.
+
+(* ---------- the pinned tree: the full statement is false, three witnesses ---------- *)
+Definition s_k : str := [107]%N.
+Definition s_s : str := [115]%N.
+Definition s_bad : str := [98;97;100]%N.
+Definition s_2 : str := [50]%N.
+Definition s_3 : str := [51]%N.
+Definition s_cb : str := [99;98]%N.
+Definition s_model : str := [109;111;100;101;108]%N.
+Definition s_cb_help : str := [99;98;46;104;101;108;112]%N.
+Definition s_model_help : str := [109;111;100;101;108;46;104;101;108;112]%N.
+Definition s_fit : str := [102;105;116]%N.
+Definition s_lr : str := [108;114]%N.
+
+Definition pd_plain (cls : list copt) : pdecl :=
+  {| pd_cfg := true; pd_opts := [(s_k, KInt); (s_s, KStr)]; pd_req := []; pd_cls := cls |}.
+Definition d_plain : decl := {| d_root := pd_plain []; d_subreq := false; d_subs := [] |}.
+Definition d_cb : decl :=
+  {| d_root := pd_plain [{| co_name := s_cb; co_callable := true |}]; d_subreq := false; d_subs := [] |}.
+Definition d_model : decl :=
+  {| d_root := pd_plain [{| co_name := s_model; co_callable := false |}]; d_subreq := false; d_subs := [] |}.
+Definition d_sub : decl :=
+  {| d_root := pd_plain []; d_subreq := false;
+     d_subs := [(s_fit, {| pd_cfg := true; pd_opts := [(s_lr, KInt)]; pd_req := []; pd_cls := [] |})] |}.
+Definition call (p : nat) (k : opk) : op := {| op_p := p; op_k := k |}.
+
+(* 1  p.parse_args(['--print_config','--k=bad']) fails and leaves the request; p.parse_args([]) then prints the
+      configuration and exits 0 where a fresh parser returns the namespace            (key print-config-pending) *)
+Theorem C09_print_config_pending_refuted :
+  exists Ds n ops o,
+    snd (step pinned Ds (run pinned Ds (init n) ops) o) <> snd (step pinned Ds (init n) o) /\
+    guard_class pinned (run pinned Ds (init n) ops) o = 1%N /\
+    snd (step pinned Ds (run pinned Ds (init n) ops) o) = OPrint None no_flags false /\
+    snd (step pinned Ds (init n) o) = OOk false.
+Proof.
+  exists [d_plain; d_plain], 2%nat, [call 0 (PArgs [TFlag s_print_config; TOpt s_k s_bad])], (call 0 (PArgs [])).
+  vm_compute. repeat split; discriminate.
+Qed.
+Print Assumptions C09_print_config_pending_refuted.
+
+(* 1' the request can also be left half-consumed for good: a request made inside sub-command fit, left behind by a
+      failure, is consumed by a later call that selects no fit section (KeyError after both pops): from then on
+      EVERY parse on that parser fails                                                (key print-config-pending) *)
+Theorem C09_print_config_broken_refuted :
+  exists Ds n ops o,
+    guard_class pinned (run pinned Ds (init n) ops) o = 1%N /\
+    snd (step pinned Ds (run pinned Ds (init n) ops) o) = OErr EBroken /\
+    snd (step pinned Ds (init n) o) = OOk false.
+Proof.
+  exists [d_sub], 1%nat,
+         [call 0 (PArgs [TPos s_fit; TFlag s_print_config; TOpt s_lr s_bad]); call 0 (PArgs [])],
+         (call 0 (PObject [(s_k, s_2)])).
+  vm_compute. repeat split.
+Qed.
+Print Assumptions C09_print_config_broken_refuted.
+
+(* 2  p.parse_args(['--k=2']) adds --print_shtab; p.parse_object({'k':3,'print_shtab':'bash'}) is then accepted
+      where a fresh parser rejects the key                                            (key lazy-print-shtab-key) *)
+Theorem C09_lazy_print_shtab_key_refuted :
+  exists Ds n ops o,
+    snd (step pinned Ds (run pinned Ds (init n) ops) o) <> snd (step pinned Ds (init n) o) /\
+    guard_class pinned (run pinned Ds (init n) ops) o = 2%N /\
+    snd (step pinned Ds (run pinned Ds (init n) ops) o) = OOk true /\
+    snd (step pinned Ds (init n) o) = OErr EPost.
+Proof.
+  exists [d_plain; d_plain], 2%nat, [call 0 (PArgs [TOpt s_k s_2])],
+         (call 0 (PObject [(s_k, s_3); (s_print_shtab, s_bash)])).
+  vm_compute. repeat split; discriminate.
+Qed.
+Print Assumptions C09_lazy_print_shtab_key_refuted.
+
+(* 3  p0.parse_args(['--cb.help=SubA']) (cb : Callable[[int], Base]) writes `skip` into the class-level dict;
+      p1.parse_args(['--model.help=SubA']) on ANOTHER parser then shows the help of SubA without its first
+      parameter                                                                     (key class-help-skip-shared) *)
+Theorem C09_class_help_skip_shared_refuted :
+  exists Ds n ops o,
+    snd (step pinned Ds (run pinned Ds (init n) ops) o) <> snd (step pinned Ds (init n) o) /\
+    guard_class pinned (run pinned Ds (init n) ops) o = 3%N /\
+    snd (step pinned Ds (run pinned Ds (init n) ops) o) = OHelpCls true /\
+    snd (step pinned Ds (init n) o) = OHelpCls false.
+Proof.
+  exists [d_cb; d_model], 2%nat, [call 0 (PArgs [TOpt s_cb_help s_SubA])], (call 1 (PArgs [TOpt s_model_help s_SubA])).
+  vm_compute. repeat split; discriminate.
+Qed.
+Print Assumptions C09_class_help_skip_shared_refuted.
+
+Theorem C09_full_statement_refuted_on_pinned_tree : ~ history_independent pinned.
+Proof.
+  intro H.
+  specialize (H [d_plain; d_plain] 2%nat [call 0 (PArgs [TFlag s_print_config; TOpt s_k s_bad])] (call 0 (PArgs []))).
+  vm_compute in H. discriminate.
+Qed.
+Print Assumptions C09_full_statement_refuted_on_pinned_tree.
+
+(* ---------- the hypotheses are satisfiable by non-trivial inputs ---------- *)
+(* a history on the pinned tree with a config-printing call, a failing call, a help-printing call, a failing call
+   that leaves a request on the OTHER parser, and a dump: the next call on parser 0 is inside the guard although
+   the carried state is far from fresh (context variables set, argv stored, --print_shtab acquired, a request
+   pending on parser 1), and its answer is the fresh answer *)
+Definition h_example : list op :=
+  [ call 0 (PArgs [TOpt s_k s_2; TFlag s_print_config]);
+    call 0 (PArgs [TOpt s_k s_bad]);
+    call 0 (PArgs [TFlag s_help]);
+    call 1 (PArgs [TFlag s_print_config; TOpt s_k s_bad]);
+    call 0 (Dump false true false false) ].
+Example C09_guard_satisfiable :
+  let s := run pinned [d_sub; d_plain] (init 2) h_example in
+  let o := call 0 (PArgs [TPos s_fit; TOpt s_lr s_3]) in
+  in_guard pinned s o = true /\
+  s <> init 2 /\ ps_shtab (get_ps s 0) = true /\ ps_pending (get_ps s 1) = PFull None no_flags /\
+  st_dk s = Some (false, true) /\
+  snd (step pinned [d_sub; d_plain] s o) = OOk false /\
+  map (fun p => snd (step pinned [d_sub; d_plain] (run pinned [d_sub; d_plain] (init 2) (firstn p h_example))
+                       (nth p h_example o)))
+      [0; 1; 2; 3; 4]%nat
+  = [OPrint None no_flags false; OErr EPre; OHelp []; OErr EPre; OOk false].
+Proof. vm_compute. repeat split. discriminate. Qed.
+Print Assumptions C09_guard_satisfiable.
+
+(* the premises of the repaired theorem are met by `repaired`, and there the three witnesses answer like fresh *)
+Example C09_repaired_example :
+  fx_pc repaired = true /\ fx_sh repaired = true /\ fx_hs repaired = true /\
+  snd (step repaired [d_plain] (run repaired [d_plain] (init 1) [call 0 (PArgs [TFlag s_print_config; TOpt s_k s_bad])])
+         (call 0 (PArgs []))) = OOk false /\
+  snd (step repaired [d_plain] (run repaired [d_plain] (init 1) [call 0 (PArgs [TOpt s_k s_2])])
+         (call 0 (PObject [(s_k, s_3); (s_print_shtab, s_bash)]))) = OErr EPost /\
+  snd (step repaired [d_cb; d_model] (run repaired [d_cb; d_model] (init 2) [call 0 (PArgs [TOpt s_cb_help s_SubA])])
+         (call 1 (PArgs [TOpt s_model_help s_SubA]))) = OHelpCls false.
+Proof. vm_compute. repeat split. Qed.
+Print Assumptions C09_repaired_example.
